@@ -1009,8 +1009,15 @@ func (it *Interp) setupIntrinsics() {
 				if it.mode == Bits {
 					if t.S.W == 32 {
 						t = it.tb.FloatToFloat(t, 64)
-					} else if bits == 32 || s.C[0].Tok == "flt32" {
+					} else if bits == 32 {
 						t = it.tb.FloatToFloat(it.tb.FloatToFloat(t, 32), 64)
+					} else if s.C[0].Tok == "flt32" {
+						// the shortest decimal text of a float32 parsed at 64 bits is some double that rounds to that
+						// float32 (it need not be the float32 widened)
+						f32 := it.tb.FloatToFloat(t, 32)
+						t = it.tb.SideVar(fmt.Sprintf("$p64of32_%d", f32.ID), F64Sort, func(v *Term) *Term {
+							return it.tb.Same(it.tb.FloatToFloat(v, 32), f32)
+						})
 					}
 				}
 				return Tuple{t, Iface{}}
